@@ -102,6 +102,35 @@ Theorem C10_cancel_serialised :
 Proof. exact cancel_serialised_now. Qed.
 Print Assumptions C10_cancel_serialised.
 
+(* The replacement literal BY FIELD NAME and the fee arithmetic as source text (white space normalised),
+   regenerated from evmclient.go on every run: Gas: 21000, Value: big.NewInt(0), Data: []byte{}, To: &c.owner,
+   ChainID: c.chainID, Nonce: txn.Nonce(); gasTipCap := original's, then * 110 / 100; gasFeeCap := original's,
+   then += gasTipCap; one Lock and one Unlock call.  CancelTx never calls txn.ChainId or txn.Type: the
+   original's chain id, sender and type are not inputs of the decision -- which is why [orig] carries only
+   nonce, price, fee cap and tip, and why C10_chain_id can say no more than "the client's chain id".
+   Lock as first statement / defer: C10_cancel_lock_first below. *)
+Theorem C10_cancel_source_shape :
+  Generated.c10_cancel_tx_src =
+    [bos "types.NewTx(&types.DynamicFeeTx{ Nonce: txn.Nonce(), ChainID: c.chainID, To: &c.owner, Value: big.NewInt(0), Gas: 21000, GasFeeCap: gasFeeCap, GasTipCap: gasTipCap, Data: []byte{}, })"] /\
+  Generated.c10_cancel_tip_src =
+    [bos "txn.GasTipCap()"; bos "new(big.Int).Div(new(big.Int).Mul(gasTipCap, big.NewInt(110)), big.NewInt(100))"] /\
+  Generated.c10_cancel_fee_src = [bos "txn.GasFeeCap()"] /\
+  Generated.c10_cancel_fee_add = [[bos "gasFeeCap"; bos "gasTipCap"]] /\
+  Generated.c10_cancel_suggest_args = [[bos "ctx"; bos "txn.GasPrice()"]] /\
+  Generated.c10_cancel_sign_args = [[bos "tx"; bos "c.chainID"]] /\
+  Generated.c10_cancel_submit_args = [[bos "ctx"; bos "signedTx"]] /\
+  Generated.c10_cancel_lock_calls = [[]] /\ Generated.c10_cancel_unlock_calls = [[]] /\
+  Generated.c10_cancel_reads_chain = false /\ Generated.c10_cancel_reads_type = false.
+Proof. exact cancel_source_shape_now. Qed.
+Print Assumptions C10_cancel_source_shape.
+
+(* The first two statements of CancelTx are "c.mtx.Lock()" and "defer c.mtx.Unlock()" (its only deferred call). *)
+Theorem C10_cancel_lock_first :
+  Generated.c10_cancel_top_stmts = [bos "c.mtx.Lock()"; bos "defer c.mtx.Unlock()"] /\
+  Generated.c10_cancel_defers = [bos "c.mtx.Unlock()"].
+Proof. exact cancel_lock_first_now. Qed.
+Print Assumptions C10_cancel_lock_first.
+
 (* A nil error means the node took the replacement (a failing SendTransaction is an error). *)
 Theorem C10_ok_only_if_accepted : forall c l tip price s b,
   ret_ok (cancel c l tip price s b) = true ->
